@@ -313,7 +313,8 @@ SYM == << Op(OP_DUP), Op(OP_HASH160), Op(OP_EQUALVERIFY), Op(OP_CHECKSIG), Op(OP
           SInt(2),                                                                                                        \* 16
           Data(Opaque(3, "x")), Data(<<B(PURCHASE_START)>> \o Opaque(22, "pm")), Data(Opaque(20, "x")),                  \* 17..19
           Data(Opaque(33, "x")), Data(Opaque(76, "x")),                                                                  \* 20..21
-          Data(TLPayload), Data(MSPayload), Data(Bs(<<16, 39>>)) >>                                                      \* 22..24
+          Data(TLPayload), Data(MSPayload), Data(Bs(<<16, 39>>)),                                                        \* 22..24
+          SInt(1), SInt(16) >>                                                                                           \* 25..26 (edit alphabet only)
 NSYM == Len(SYM)
 SymOfOp(v) == CHOOSE i \in 1..NSYM : SYM[i].k = "op" /\ SYM[i].v = v
 FieldSym(op) == IF op.k = "op" THEN <<SymOfOp(op.v)>>
@@ -434,9 +435,15 @@ GenRoundTrip == c.kind = "gen" =>
           /\ xr.inner.known /\ xr.inner.name = "timelock"
           /\ LET hs == SelectSeq(xr.inner.vals, LAMBDA y : y.f = "height") IN
                Len(hs) = 1 /\ StripZeros([i \in 1..Len(hs[1].pl) |-> hs[1].pl[i].b]) = c.vals[3].s[1].h
+\*    the height comes back exactly, and its bytes are a minimal non-negative script number (top bit clear, no padding
+\*    beyond the one 00 that clears it), which is what OP_CHECKLOCKTIMEVERIFY reads
 GenHeightExact == (c.kind = "gen" /\ c.tpl = "timelock") =>
    LET at == BoundAt(xr.tz.toks, xr.r.bind, "height") IN
-     at # {} /\ LET pl == xr.tz.toks[MinOf(at)].pl IN StripZeros([i \in 1..Len(pl) |-> pl[i].b]) = c.vals[1].h
+     at # {} /\ LET pl == xr.tz.toks[MinOf(at)].pl
+                    q == [i \in 1..Len(pl) |-> pl[i].b] IN
+                /\ StripZeros(q) = c.vals[1].h
+                /\ Len(q) >= 1 /\ q[Len(q)] < 128
+                /\ (Len(q) > 1 /\ q[Len(q)] = 0) => q[Len(q) - 1] >= 128
 \* L3 tokenising the minimal encoding of a token sequence returns the token sequence
 SeqEncodeDecode == c.kind = "seq" => (xr.tz.st = "ok" /\ ~xr.tz.tr /\ xr.tz.toks = Toks(c.syms))
 \* L4 the tokeniser never has to interpret payload bytes in any emitted case
